@@ -203,8 +203,37 @@ static rc::Gen<std::vector<LD>> gen_pair(int nt, int n) {
                       });
 }
 
+// C05: the embedding of a planar direction into three dimensions and back is lossless
+template <class T> static std::string embed_dir(const LD* v) {
+  const PlanarDirection<T> p((T)v[0], (T)v[1]);
+  const Direction<T> d(p);
+  const PlanarDirection<T> back(d);
+  if (d.z() != 0) return fmt("Direction(PlanarDirection(%s, %s)) has z = %s", decld(v[0]).c_str(), decld(v[1]).c_str(), hexld(d.z()).c_str());
+  const LD a[2] = {p.x(), p.y()}, b[2] = {back.x(), back.y()}, c[2] = {d.x(), d.y()};
+  // both conversions re-normalise, so the round trip is not bit-exact; the statement asks for "a few ulps"
+  const int nt = std::is_same_v<T, float> ? 0 : std::is_same_v<T, double> ? 1 : 2;
+  for (int i = 0; i < 2; i++) {
+    const double e1 = err_ulps(nt, c[i], (Q)a[i], (Q)1), e2 = err_ulps(nt, b[i], (Q)a[i], (Q)1);
+    if (!(e1 <= 2.0)) return fmt("Direction(PlanarDirection) moves component %d from %s to %s (%.2f ulp, allowed 2)", i, hexld(a[i]).c_str(), hexld(c[i]).c_str(), e1);
+    if (!(e2 <= 3.0)) return fmt("PlanarDirection(Direction(PlanarDirection(%s, %s))) returns component %d = %s instead of %s (%.2f ulp, allowed 3)", decld(v[0]).c_str(), decld(v[1]).c_str(), i, hexld(b[i]).c_str(), hexld(a[i]).c_str(), e2);
+  }
+  return "";
+}
+static Verdict c05_direction_embedding(const Case& c) {
+  const int nt = (int)c.i[0];
+  const std::string m = nt == 0 ? embed_dir<float>(c.r.data()) : nt == 1 ? embed_dir<double>(c.r.data()) : embed_dir<long double>(c.r.data());
+  if (!m.empty()) return Verdict::fail(m + " [" + ntinfo(nt).name + "]");
+  Verdict V; V.cls = ntinfo(nt).name; V.nontrivial = c.r[0] != 0 && c.r[1] != 0; return V;
+}
+
 int main(int argc, char** argv) {
   std::vector<Sub> subs;
+  {
+    Sub s; s.name = "c05.direction_embedding"; s.property = "C05"; s.instances = 3; s.n_quick = 5000; s.n_thorough = 300000; s.run = c05_direction_embedding;
+    s.gen = [](int nt) { return rc::gen::map(gen_vec(nt, 2, 2), [=](const std::vector<LD>& v) { Case c; c.i = {nt}; c.r = {v[0], v[1]}; return c; }); };
+    s.rule = "PlanarDirection -> Direction -> PlanarDirection returns the original within 3 ulp per component (both conversions re-normalise), z = 0 exactly; non-trivial: both components non-zero";
+    subs.push_back(s);
+  }
   {
     Sub s; s.name = "c10.paths"; s.property = "C10"; s.instances = 3 * 2 * 9; s.n_quick = 600; s.n_thorough = 40000; s.run = c10_paths;
     s.gen = [](int inst) { const int path = inst % 9, n = 2 + (inst / 9) % 2, nt = inst / 18;
